@@ -64,6 +64,31 @@ func constInt(info *types.Info, e ast.Expr) (int64, bool) {
 
 // stringSetLiteral: keys of a map literal or elements of a slice literal, all constant strings.
 func stringSetLiteral(info *types.Info, e ast.Expr) ([]string, bool) {
+	// a set built by a call that is handed nothing but constant strings (elementSet("address", "article", …)) and
+	// returns a map keyed by, or a slice of, strings: the names are the arguments
+	if call, ok := ast.Unparen(e).(*ast.CallExpr); ok && len(call.Args) > 0 {
+		okType := false
+		switch t := info.TypeOf(call).Underlying().(type) {
+		case *types.Map:
+			okType = isStringType(t.Key())
+		case *types.Slice:
+			okType = isStringType(t.Elem())
+		}
+		var out []string
+		for _, a := range call.Args {
+			sv, isConst := constString(info, a)
+			if !isConst {
+				okType = false
+				break
+			}
+			out = append(out, sv)
+		}
+		if okType {
+			sort.Strings(out)
+			return out, true
+		}
+		return nil, false
+	}
 	cl, ok := ast.Unparen(e).(*ast.CompositeLit)
 	if !ok {
 		return nil, false
